@@ -1,7 +1,8 @@
 (* C02 — in-flight worker invocations never exceed the configured concurrency.
    Statements only; model coq/SliceDisp.v (see C06.v). [othrun] = other jobs whose worker
-   function is running; a reservation [DReserve a c] carries what the event loop's guard
-   loaded from curProcessing (a) and from the concurrency limit (c) immediately before. *)
+   function is running; a reservation [DReserve n c] carries the value n that
+   curProcessing.Add(1) returned and the concurrency limit c the same thread loads right after
+   (worker.go processNextJob: a reservation with n > c is handed back). *)
 From Coq Require Import List Arith.
 From VQ Require Import SliceDisp SliceDispProofs.
 Import ListNotations.
@@ -15,23 +16,38 @@ Print Assumptions C02_running_le_curProcessing.
 
 (* ... curProcessing grows only when the event loop reserves a slot ... *)
 Theorem C02_cur_grows_only_at_reserve :
-  forall s e s', dstep s e = Some s' -> cur s' <= cur s \/ exists a c, e = DReserve a c.
+  forall s e s', dstep s e = Some s' -> cur s' <= cur s \/ exists n c, e = DReserve n c.
 Proof. exact cur_only_grows_at_reserve. Qed.
 Print Assumptions C02_cur_grows_only_at_reserve.
 
-(* ... and a reservation leaves it at most at the limit its guard read (the limit in effect
-   when the slot was taken: after TunePool(n) has returned, every later reservation reads n).
-   The step's precondition "nobody else incremented since the guard loaded curProcessing"
-   is the single-event-loop fact; it is checked on every replayed trace (a second dispatcher
-   racing the first makes the trace fall outside the model). *)
+(* ... and a reservation goes on only if the value its own Add returned — curProcessing with
+   itself counted — is within the limit it then loads: at that instant everything in flight,
+   itself included, is within that limit. No assumption that there is one event loop: any number
+   of threads may reserve at any time (a stale event loop racing its successor after a Restart,
+   a TunePool lowering the limit in between). After TunePool(n) has returned every later
+   reservation loads n. *)
 Theorem C02_reserve_within_limit :
-  forall s a c s', dstep s (DReserve a c) = Some s' -> cur s' <= c.
+  forall s n c s', dstep s (DReserve n c) = Some s' -> n <= c -> cur s' <= c /\ raw s' = S (raw s).
 Proof. exact reserve_within_limit. Qed.
 Print Assumptions C02_reserve_within_limit.
 
+(* A reservation above the limit can only be handed back: it is never re-checked and never
+   dequeues. *)
+Theorem C02_reserve_over_limit_is_returned :
+  forall s n c s', dstep s (DReserve n c) = Some s' -> c < n ->
+    raw s' = raw s /\ okr s' = okr s /\ oth s' = oth s /\ jl s' = jl s /\ doomed s' = S (doomed s).
+Proof. exact reserve_over_limit_is_returned. Qed.
+Print Assumptions C02_reserve_over_limit_is_returned.
+
+Theorem C02_dequeue_needs_passed_reservation :
+  forall s e s', dstep s e = Some s' -> (e = DDeqJ \/ e = DDeqOtherSameQ \/ e = DDeqOtherQ) -> okr s = S (okr s').
+Proof. exact dequeue_needs_passed_reservation. Qed.
+Print Assumptions C02_dequeue_needs_passed_reservation.
+
 Example C02_example :
-  match drun_from 1 [DAcceptJ; DEnqOther; DCurLoad 0; DReserve 0 2; DRecheck 1; DDeqJ; DClaimJ true; DCurLoad 1;
-                     DReserve 1 2; DRecheck 1; DDeqOtherSameQ; DWfEnterJ; DWfEnterOther; DCurLoad 2] with
+  match drun_from 1 [DAcceptJ; DEnqOther; DCurLoad 0; DReserve 1 2; DRecheck 1; DDeqJ; DClaimJ true; DCurLoad 1;
+                     DReserve 2 2; DRecheck 1; DDeqOtherSameQ; DWfEnterJ; DWfEnterOther; DCurLoad 2;
+                     DReserve 3 2; DUnresDoomed; DCurLoad 2] with
   | inr s => cur s = 2 /\ othrun s = 1 /\ jl s = JRun
   | inl _ => False
   end.
